@@ -6,6 +6,7 @@ import re
 import shutil
 import sys
 sys.path.insert(0, os.path.join(os.path.dirname(os.path.abspath(__file__)), "..", "bind", "py"))
+import binfmt
 import common
 import machine
 import wasm_encode
@@ -157,7 +158,9 @@ def main():
             mods.append((it["id"], it["module"], it["script"]))
         for it in wasmgen.programs("calls", 12 if tier == "quick" else 150, SEED, args_per_prog=3)[:4 if tier == "quick" else 60]:
             mods.append((it["id"], it["module"], it["script"]))
-        dscript = [INST, {"op": "call", "inst": 1, "export": "mix", "args": [{"t": "i64", "b": b64(5)}, {"t": "f64", "b": b64(0x4000000000000000)}]},
+        # the directed module imports a global: the embedder's object comes first, the instance is bound to it
+        dscript = [{"op": "hostglobal", "t": "i32", "b": b32(400)}, dict(INST, binds={"mem": 0, "table": 0, "globals": [1]}),
+                   {"op": "call", "inst": 1, "export": "mix", "args": [{"t": "i64", "b": b64(5)}, {"t": "f64", "b": b64(0x4000000000000000)}]},
                    {"op": "call", "inst": 1, "export": "locs", "args": [{"t": "i32", "b": b32(100)}]}]
         jobs, items, fields_checked = [], [], []
         for mm in mods:
@@ -224,6 +227,69 @@ def main():
             ltrans += fr["generated"]
             fields_checked.append(len(fl))
 
+        # 3. the binary format itself (WasmBinary.tla).  First the model is held against the expectations of the WebAssembly
+        #    authors (the repository's spec-suite files: accepted, malformed, invalid); then TLC decodes every encoding used
+        #    below: each must be a valid module and decode to exactly the abstract module the behaviour is predicted from -
+        #    "the same module under the specification" is decided by the specification, not assumed of the binder's encoder
+        binstat = binfmt.selfcheck(wd, tier, SEED)
+        asts = {mm[0]: binfmt.canon(mm[1]) for mm in mods}
+        asts.update({name: binfmt.canon(machine.norm_module(m)) for name, m in sparse})
+        named = {}
+        for j, (name, ci, c, canon, data) in enumerate(jobs):
+            named["%d:canon:%s" % (j, name)] = canon
+            named["%d:alt:%s" % (j, name)] = data
+        uniq = {}
+        for k, b in named.items():
+            uniq.setdefault(bytes(b), []).append(k)
+        verdicts, bst = binfmt.decode([(ks[0], b) for b, ks in uniq.items()], wd)
+        for b, ks in uniq.items():
+            o = verdicts[ks[0]]
+            name = ks[0].split(":", 2)[2]
+            if o["status"] != "ok" or o["valid"] != "":
+                raise common.MachineryError("the binder produced an encoding that WasmBinary/WasmValid reject (%s %s %s): %s" % (o["status"], o["why"], o["valid"], ks[0]))
+            if binfmt.canon(o["module"]) != asts[name]:
+                raise common.MachineryError("the binder produced an encoding that decodes to another module: %s" % ks[0])
+        lstates += binstat["states"] + bst["states"]
+        ltrans += binstat["transitions"] + bst["transitions"]
+        # 4. absent sections mean empty: from valid encodings, leave out sections (each one, pairs, every cut at a section
+        #    boundary).  WasmBinary.tla + WasmValid.tla decide which of the results are valid modules; w2c2 must accept those
+        #    and the output must behave as WasmExec says for the module TLC decoded from the very bytes w2c2 is given.
+        subs, nsub_valid, nsub_rejected = {}, 0, 0
+        for mm in mods:
+            name, m = mm[0], mm[1]
+            script = mm[2] if len(mm) > 2 else dscript
+            em = machine.enc_module(m)
+            if name == "directed":
+                # without the data count section (nothing in this variant names a data segment), so that the data section is optional
+                em = dict(em, datacount=False)
+            base = wasm_encode.encode(em)
+            secs = binfmt.sections(base)
+            ids = [sid for sid, _, _ in secs]
+            drops = [[k] for k in range(len(secs))] + [list(range(k, len(secs))) for k in range(1, len(secs))]
+            drops += [[a, b] for a in range(len(secs)) for b in range(a + 1, len(secs)) if ids[a] in (6, 7, 8, 9, 11, 12) and ids[b] in (7, 8, 9, 11, 12)]
+            for dr in drops:
+                data = base[:8] + b"".join(base[a:b] for k, (sid, a, b) in enumerate(secs) if k not in dr)
+                key = "sub:%s:-%s" % (name, ".".join(str(ids[k]) for k in dr))
+                if data != base and key not in subs:
+                    subs[key] = (name, m, script, data, [ids[k] for k in dr])
+        sverd, sst = binfmt.decode([(k, x[3]) for k, x in subs.items()], wd)
+        lstates += sst["states"]
+        ltrans += sst["transitions"]
+        subjobs = []
+        for key, (name, m, script, data, dropped) in sorted(subs.items()):
+            o = sverd[key]
+            if o["status"] != "ok" or o["valid"] != "":
+                nsub_rejected += 1
+                continue
+            nsub_valid += 1
+            rets = {(bytes(binfmt._name(im["mod"])), bytes(binfmt._name(im["name"]))): im.get("ret", []) for im in m.get("imports", []) if im["kind"] == "func"}
+            dm = binfmt.to_ast(o["module"], rets)
+            names = {x["name"] for x in dm["exports"] if x["kind"] == "func" and isinstance(x["name"], str)}
+            sc = [op for op in script if op["op"] != "call" or op["export"] in names]
+            subjobs.append(key)
+            items.append({"id": key.replace(":", "_").replace("-", "m").replace(".", "_"), "module": dm, "script": sc, "wasm": data})
+            jobs.append((key, 3000, {"dropped": dropped}, data, data))
+
         def job(j):
             name, ci, c, canon, data = jobs[j]
             d = os.path.join(wd, "e%d" % j)
@@ -260,7 +326,7 @@ def main():
                 if kind == "machinery":
                     raise common.MachineryError(text)
                 c = jobs[j][2]
-                what = "custom-sections" if c.get("custom") and not c.get("pad") and not c.get("padall") else \
+                what = "absent-sections" if "dropped" in c else "custom-sections" if c.get("custom") and not c.get("pad") and not c.get("padall") else \
                        "padding" if (c.get("pad") or c.get("padall")) and not c.get("custom") else "mixed"
                 v.deviation("enc:%s:%s" % (kind, what), {"module": jobs[j][0], "choice": {k: (c[k] if k != "pad" else dict(list(c[k].items())[:6])) for k in c}, "what": text},
                             {"alt.wasm": jobs[j][4], "canonical.wasm": jobs[j][3]})
@@ -277,11 +343,17 @@ def main():
                    "leb128ReadU32/I32/U64/I64 (value and byte count compared); modules: a directed module with every section kind plus WasmGen "
                    "modules x choice vectors (every field padded to its maximum, random per-field padding, custom sections of arbitrary name "
                    "and payload at every boundary, data segments as flag 0 / flag 2, empty sections present) -> w2c2 must accept, produce the "
-                   "same multiset of function definitions and the same other definitions as for the canonical encoding, and behave as WasmExec says",
+                   "same multiset of function definitions and the same other definitions as for the canonical encoding, and behave as WasmExec says; "
+                   "WasmBinary.tla (the binary format as a TLA+ decoder, first held against the accepted / malformed / invalid files of the "
+                   "repository's spec suite) decodes every encoding used: all variants of a module must decode to the abstract module the "
+                   "behaviour is predicted from; section subsets (each section left out, pairs, every cut at a section boundary) are classified "
+                   "by WasmBinary + WasmValid, and the valid ones must be accepted by w2c2 and behave like the module TLC decoded from those bytes",
+           "binary_format_model_vs_spec_suite": binstat, "encodings_decoded_by_tlc": len(uniq) + len(subs),
+           "section_subsets": {"built": len(subs), "valid_by_model": nsub_valid, "rejected_by_model": nsub_rejected},
            "leb_vectors_checked": nvec, "encodings": len(jobs), "encoder_fields_cross_checked": fields_checked, "exhaustive": False}
     return v.finish("model_checking", cov,
-                    ["module-level encodings are produced by bind/py/wasm_encode.py; its LEB padding is cross-checked against Leb128.tla, its section "
-                     "layout is trusted", "name and debug custom sections are only parsed with -g (not exercised here beyond presence)"])
+                    ["module-level encodings are produced by bind/py/wasm_encode.py; its LEB padding is cross-checked against Leb128.tla and every "
+                     "encoding it produced is decoded by WasmBinary.tla and compared with the abstract module (a wrong encoder is a machinery error)", "name and debug custom sections are only parsed with -g (not exercised here beyond presence)"])
 
 
 main_wrap(main)
